@@ -69,6 +69,11 @@ func comps(extra map[string]string) map[string]string {
 }
 
 var props = map[string]propCfg{
+	"C18": {World: "conc", QuickRuns: 1500, ThoroughRuns: 200000, QuickRace: 300, ThoroughRace: 30000, Instrument: true,
+		Rule: "one run = one shared value (parsed from reference bytes by one of the 38 entry points, or built by a signing constructor) read by 2..4 tasks, each executing 1..4 scripted read-only calls (every exported argument-free method found by reflection, Equals/Equal against a private twin, full recursive observation, package-level size lookups, parsing the same bytes again) while a scripted schedule of 0..6 preemptions hands control from task to task at yield points inserted before every statement of the library (text splice into a scratch copy; about 4.5k sites). Three oracles per run: result equality with solo execution on a private instance; deep memory snapshot (to capacity) of the shared value and of every package-level variable before/after; and, in a -race build of the same scripts, the race detector with a hand-over it cannot see. Non-trivial = at least one preemption happened; distinct = distinct run fingerprints, which include a hash of the executed (yield ordinal, from-task, to-task, site) switch sequence.",
+		Assumptions: []string{"dependencies (go-i2p/crypto, logger, oops, stdlib) are not instrumented and run atomically between yields", "statement granularity is the finest interleaving produced; the snapshot and race oracles do not need the bad interleaving to occur", "the norace hand-over relies on amd64 TSO and on the compiler not moving memory operations across a non-inlined call", "objects owned by dependencies (the logger behind each package's log variable) are compared by pointer identity only"},
+		Components:  comps(map[string]string{"scheduler": "simulated: real goroutines, one runnable at a time, hand-over only at inserted yield points in scripted order (spin on a plain word in //go:norace functions)", "yield points": "go/parser-located text splice into the scratch copy of /repo made by the check; the repository's own suite passes on the instrumented copy", "race detector": "Go's ThreadSanitizer runtime used as an in-simulation oracle over the controlled schedule", "clock": "real clock; every expiry in the generated values is kept decades away from it so that time-dependent accessors are constant (a synctest bubble cannot be used here: a detector report fails the bubble and aborts the run)"}),
+		TimeoutQuick: 8 * time.Minute, TimeoutThoro: 60 * time.Minute},
 	"C16": {World: "els", QuickRuns: 1500, ThoroughRuns: 120000,
 		Rule: "one run = 2..16 operations between a publisher, a floodfill store and 3 clients: encrypt a reference-built LeaseSet2 (shapes, key forms and cookies drawn per run) to a client's X25519 key under a scripted entropy stream (optionally faulted: short reads, stream restart = VM clone, all-zero / all-0xFF output, reader error during key generation), corrupt a stored ciphertext (one bit/byte in ephemeral key, nonce, body or tag), truncate/extend it, fetch and open it with the right or a wrong client's key (all accepted key forms), in the thorough tier flip one bit at every byte position of a ciphertext; and blind a destination on two nodes, each in its own synctest bubble with its own instant (either side of UTC midnight, seconds to days of skew) and fixed time zone (UTC-12..UTC+14). Non-trivial = at least one fault / corruption / mis-delivery / node boot fired; distinct = distinct run fingerprints.",
 		Assumptions: []string{"kdf.DeriveBlindingFactor (dependency) is the derived factor the property speaks of; the UTC calendar day is computed independently of the time package", "reader errors are injected only on the read that goes through an io.Reader argument (ephemeral key generation): crypto/rand.Read aborts the process when a replaced Reader fails", "a ciphertext shorter than 61 bytes cannot be wrapped in an EncryptedLeaseSet at all and is counted as a probe"},
@@ -166,6 +171,30 @@ func main() {
 		os.Exit(replayCmd(os.Args[2], os.Args[3]))
 	case "selftest":
 		os.Exit(selftest(os.Args[2:]))
+	case "mutants":
+		os.Exit(mutants(os.Args[2:]))
+	case "script":
+		// debugging aid: print the script and outcome of one run index
+		if len(os.Args) < 4 {
+			fatal2("script needs a property id and a run index")
+		}
+		n, _ := strconv.Atoi(os.Args[3])
+		r := newRunner(os.Args[2], "quick", "/repo")
+		r.prepare()
+		defer r.cleanup()
+		bin, err := r.build(len(os.Args) > 4 && os.Args[4] == "race")
+		if err != nil {
+			fmt.Fprintln(os.Stderr, err)
+			r.cleanup()
+			os.Exit(2)
+		}
+		res := r.fanoutOne(bin, n, n+1, "script", append([]string{"SIM_DOUBLE_EVERY=1", "SIM_RECORD_FP_BELOW=1000000000"}, r.envFor(bin, "script")...), 10*time.Minute)
+		if res == nil {
+			r.cleanup()
+			os.Exit(2)
+		}
+		b, _ := json.MarshalIndent(res, "", " ")
+		fmt.Println(string(b))
 	default:
 		fatal2("unknown command %q", os.Args[1])
 	}
@@ -315,6 +344,7 @@ func (r *runner) build(race bool) (string, error) {
 }
 
 type workerSpec struct {
+	race     bool
 	from, to int
 	extraEnv []string
 	out      string
@@ -357,21 +387,12 @@ func (r *runner) runWorker(bin string, w workerSpec, timeout time.Duration) (*en
 	if err := json.Unmarshal(b, &res); err != nil {
 		return nil, fmt.Errorf("worker result: %v", err)
 	}
-	res.Infra = append(res.Infra, raceInfra(werr, w.log, &res)...)
+	if werr != nil && !w.race {
+		// a non-zero exit of a worker that wrote its result is only expected in
+		// race builds (a subtest "fails" when the detector reports)
+		res.Infra = append(res.Infra, fmt.Sprintf("worker exited with %v: %s", werr, tailFile(w.log, 1500)))
+	}
 	return &res, nil
-}
-
-// raceInfra: a non-zero exit of a worker that wrote a result is only expected
-// in race builds (a subtest "fails" when the detector reports); anything else
-// is infrastructure trouble.
-func raceInfra(werr error, log string, res *engine.WorkerResult) []string {
-	if werr == nil {
-		return nil
-	}
-	if strings.Contains(log, ".race.") {
-		return nil
-	}
-	return []string{fmt.Sprintf("worker exited with %v: %s", werr, tailFile(log, 1500))}
 }
 
 func tailFile(p string, n int) string {
@@ -473,7 +494,7 @@ func (r *runner) fanout(bin string, total int, tag string, extraEnv []string, ti
 		wg.Add(1)
 		go func(i, from, to int) {
 			defer wg.Done()
-			w := workerSpec{from: from, to: to, extraEnv: append([]string{"SIM_RECORD_FP_BELOW=6", "SIM_DOUBLE_EVERY=" + strconv.Itoa(doubleEvery(total))}, extraEnv...),
+			w := workerSpec{race: strings.Contains(bin, ".race."), from: from, to: to, extraEnv: append([]string{"SIM_RECORD_FP_BELOW=6", "SIM_DOUBLE_EVERY=" + strconv.Itoa(doubleEvery(total))}, extraEnv...),
 				out: filepath.Join(r.scratch, fmt.Sprintf("%s-w%d.json", tag, i)), log: filepath.Join(r.scratch, fmt.Sprintf("%s-w%d.log", tag, i))}
 			res, err := r.runWorker(bin, w, timeout)
 			mu.Lock()
@@ -566,7 +587,7 @@ func check(id, tier, repo string, writeEvidence bool) int {
 			r.cleanup()
 			fatal2("race build failed")
 		}
-		raceM = r.fanout(rbin, raceRuns, "race", []string{"SIM_RACE=1", "GORACE=halt_on_error=0 history_size=3"}, timeout)
+		raceM = r.fanout(rbin, raceRuns, "race", r.raceEnv("race"), timeout)
 		m.infra = append(m.infra, raceM.infra...)
 		for k, v := range raceM.viol {
 			if _, ok := m.viol[k]; !ok {
@@ -589,7 +610,7 @@ func check(id, tier, repo string, writeEvidence bool) int {
 	sort.Strings(classes)
 	exit := 0
 	newViol := 0
-	var knownLines, violLines []string
+	var knownLines, violLines, replayMisses []string
 	for _, c := range classes {
 		v := m.viol[c]
 		if what, ok := known[id+"|"+c]; ok {
@@ -605,7 +626,7 @@ func check(id, tier, repo string, writeEvidence bool) int {
 		}
 		ok, why := r.confirm(useBin, v)
 		if !ok {
-			m.infra = append(m.infra, fmt.Sprintf("replay of %s did not reproduce class %s: %s", v.Replay, c, why))
+			replayMisses = append(replayMisses, fmt.Sprintf("replay of %s did not reproduce class %s: %s", v.Replay, c, why))
 			continue
 		}
 		newViol++
@@ -623,6 +644,15 @@ func check(id, tier, repo string, writeEvidence bool) int {
 		fmt.Println(l)
 	}
 	fmt.Printf("runs=%d distinct_nontrivial=%d faults_fired=%d sim_time=%.3g s panics_observed=%d wall=%.1fs\n", m.runs, len(m.nt), sumMap(m.faults), m.sim, m.panics, wall)
+	// A violation that did not reproduce from its replay file is never
+	// reported as a violation. If nothing else was confirmed the run is
+	// infrastructure trouble; next to confirmed violations it is a warning.
+	for _, s := range replayMisses {
+		fmt.Fprintln(os.Stderr, "simcheck: not reported (replay mismatch):", s)
+	}
+	if len(replayMisses) > 0 && newViol == 0 {
+		m.infra = append(m.infra, replayMisses...)
+	}
 	if len(m.infra) > 0 {
 		sort.Strings(m.infra)
 		for i, s := range m.infra {
@@ -653,7 +683,7 @@ func sumMap(m map[string]int64) int64 {
 }
 
 func (r *runner) fanoutOne(bin string, from, to int, tag string, extraEnv []string, timeout time.Duration) *engine.WorkerResult {
-	w := workerSpec{from: from, to: to, extraEnv: extraEnv, out: filepath.Join(r.scratch, tag+".json"), log: filepath.Join(r.scratch, tag+".log")}
+	w := workerSpec{race: strings.Contains(bin, ".race."), from: from, to: to, extraEnv: extraEnv, out: filepath.Join(r.scratch, tag+".json"), log: filepath.Join(r.scratch, tag+".log")}
 	res, err := r.runWorker(bin, w, timeout)
 	if err != nil {
 		fmt.Fprintln(os.Stderr, "simcheck:", err)
@@ -667,13 +697,20 @@ func (r *runner) confirm(bin string, v *engine.ViolationReport) (bool, string) {
 	if v.Replay == "" {
 		return false, "no replay file was written"
 	}
-	res := r.fanoutOne(bin, 0, 1, "confirm", []string{"SIM_REPLAY=" + v.Replay, "SIM_RACE=" + raceFlag(bin), "GORACE=halt_on_error=0 history_size=3"}, 5*time.Minute)
+	res := r.fanoutOne(bin, 0, 1, "confirm", append([]string{"SIM_REPLAY=" + v.Replay}, r.envFor(bin, "confirm")...), 5*time.Minute)
 	if res == nil || res.Replayed == nil {
 		return false, "replay worker failed"
 	}
 	found := false
 	for _, c := range res.Replayed.Classes {
 		if c == v.Class {
+			found = true
+		}
+		// Which pair of stacks the race detector names first depends on what
+		// it already reported earlier in the same process (it never repeats a
+		// report), so a replay in a fresh process may name another pair of the
+		// same race: any race report reproduces a race-class violation.
+		if strings.HasPrefix(v.Class, "C18/race/") && strings.HasPrefix(c, "C18/race/") {
 			found = true
 		}
 	}
@@ -684,6 +721,20 @@ func (r *runner) confirm(bin string, v *engine.ViolationReport) (bool, string) {
 		return false, fmt.Sprintf("fingerprint %s on replay, %s when found", res.Replayed.Fingerprint, v.Fingerprint)
 	}
 	return true, ""
+}
+
+// raceEnv is the environment of a race-build worker: the detector keeps
+// going after a report and writes its reports to a file the world reads back.
+func (r *runner) raceEnv(tag string) []string {
+	lp := filepath.Join(r.scratch, "racelog-"+tag)
+	return []string{"SIM_RACE=1", "SIM_RACE_LOG=" + lp, "GORACE=halt_on_error=0 history_size=7 log_path=" + lp}
+}
+
+func (r *runner) envFor(bin, tag string) []string {
+	if strings.Contains(bin, ".race.") {
+		return r.raceEnv(tag)
+	}
+	return nil
 }
 
 func raceFlag(bin string) string {
@@ -709,7 +760,7 @@ func replayCmd(id, file string) int {
 		r.cleanup()
 		fatal2("build failed")
 	}
-	res := r.fanoutOne(bin, 0, 1, "replay", []string{"SIM_REPLAY=" + abs, "SIM_RACE=" + raceFlag(bin), "GORACE=halt_on_error=0 history_size=3"}, 10*time.Minute)
+	res := r.fanoutOne(bin, 0, 1, "replay", append([]string{"SIM_REPLAY=" + abs}, r.envFor(bin, "replay")...), 10*time.Minute)
 	if res == nil || res.Replayed == nil {
 		r.cleanup()
 		fatal2("replay worker failed")
@@ -721,7 +772,7 @@ func replayCmd(id, file string) int {
 	if s.Expect != nil {
 		hit := false
 		for _, c := range res.Replayed.Classes {
-			if c == s.Expect.ViolationClass {
+			if c == s.Expect.ViolationClass || (strings.HasPrefix(s.Expect.ViolationClass, "C18/race/") && strings.HasPrefix(c, "C18/race/")) {
 				hit = true
 			}
 		}
@@ -835,4 +886,95 @@ func selftest(ids []string) int {
 		return 2
 	}
 	return 0
+}
+
+// mutants: sensitivity proof. Every patch under /verif/mutants is applied to
+// a scratch copy of /repo (never to /repo) and the check of the property it
+// breaks must exit 1 within its quick budget. With --others every other
+// claimed check must stay at 0 on that copy.
+func mutants(args []string) int {
+	type mut struct{ Name, Property, File string }
+	b, err := os.ReadFile(filepath.Join(verifDir, "mutants", "mutants.json"))
+	if err != nil {
+		fatal2("%v", err)
+	}
+	var raw []map[string]string
+	if err := json.Unmarshal(b, &raw); err != nil {
+		fatal2("%v", err)
+	}
+	others := false
+	only := map[string]bool{}
+	for _, a := range args {
+		if a == "--others" {
+			others = true
+		} else {
+			only[a] = true
+		}
+	}
+	missed, falseAlarms := 0, 0
+	for _, m := range raw {
+		name, prop := m["name"], m["property"]
+		if len(only) > 0 && !only[name] && !only[prop] {
+			continue
+		}
+		base := os.Getenv("TMPDIR")
+		if base == "" {
+			base = os.TempDir()
+		}
+		d, err := os.MkdirTemp(base, "i2psim-mutant-")
+		if err != nil {
+			fatal2("%v", err)
+		}
+		if err := copyTree("/repo", d); err != nil {
+			fatal2("%v", err)
+		}
+		cmd := exec.Command("patch", "-p1", "-s", "-i", filepath.Join(verifDir, "mutants", name+".patch"))
+		cmd.Dir = d
+		if out, err := cmd.CombinedOutput(); err != nil {
+			fmt.Printf("mutant %-48s PATCH DOES NOT APPLY: %s\n", name, strings.TrimSpace(string(out)))
+			missed++
+			os.RemoveAll(d)
+			continue
+		}
+		start := time.Now()
+		code := quiet(func() int { return check(prop, "quick", d, false) })
+		verdict := "caught"
+		if code != 1 {
+			verdict = fmt.Sprintf("MISSED (exit %d)", code)
+			missed++
+		}
+		fmt.Printf("mutant %-48s %s by %s in %.1fs\n", name, verdict, prop, time.Since(start).Seconds())
+		if others {
+			for _, p := range sortedProps() {
+				if p == prop {
+					continue
+				}
+				if c := quiet(func() int { return check(p, "quick", d, false) }); c != 0 {
+					fmt.Printf("   %s also reports exit %d on this mutant\n", p, c)
+					if c == 1 {
+						falseAlarms++
+					}
+				}
+			}
+		}
+		os.RemoveAll(d)
+	}
+	fmt.Printf("mutants: %d missed, %d reports by checks of other properties\n", missed, falseAlarms)
+	if missed > 0 {
+		return 1
+	}
+	return 0
+}
+
+// quiet runs f with stdout/stderr of this process redirected to /dev/null.
+func quiet(f func() int) int {
+	null, err := os.OpenFile(os.DevNull, os.O_WRONLY, 0)
+	if err != nil {
+		return f()
+	}
+	defer null.Close()
+	so, se := os.Stdout, os.Stderr
+	os.Stdout, os.Stderr = null, null
+	defer func() { os.Stdout, os.Stderr = so, se }()
+	return f()
 }
